@@ -502,6 +502,22 @@ func sxPathsInline(fn *ssa.Function, tag string, inline func(*ssa.Function) bool
 						return
 					}
 					s.visits[b]++
+				} else {
+					// the header of a counted loop: each iteration gets a fresh budget for the
+					// undecided branches of its body
+					header := false
+					for _, p := range b.Preds {
+						if b.Dominates(p) {
+							header = true
+						}
+					}
+					if header {
+						for _, x := range b.Parent().Blocks {
+							if x != b && b.Dominates(x) {
+								delete(s.visits, x)
+							}
+						}
+					}
 				}
 				blk := b
 				branch(s, cond, func(ns *sxState, truth bool) {
@@ -1157,7 +1173,25 @@ func (s *sxState) exec(in ssa.Instruction) {
 		}
 		s.regs[u] = sxIndexAddr{base: base, idx: s.eval(u.Index)}
 	case *ssa.Index:
-		s.regs[u] = sxOp{"index", []sxVal{s.eval(u.X), s.eval(u.Index)}}
+		x, i := s.eval(u.X), s.eval(u.Index)
+		if k, ok := i.(sxConst); ok && k.c.Value != nil && k.c.Value.Kind() == constant.Int {
+			n, _ := constant.Int64Val(k.c.Value)
+			switch a := x.(type) {
+			case sxStruct: // array value built on the path
+				var et types.Type
+				if arr, ok := u.X.Type().Underlying().(*types.Array); ok {
+					et = arr.Elem()
+				}
+				s.regs[u] = sxFieldOf(a, int(n), fmt.Sprintf("[%d]", n), et)
+				return
+			case sxList:
+				if n >= 0 && int(n) < len(a.elems) {
+					s.regs[u] = a.elems[n]
+					return
+				}
+			}
+		}
+		s.regs[u] = sxOp{"index", []sxVal{x, i}}
 	case *ssa.ChangeType:
 		s.regs[u] = s.eval(u.X)
 	case *ssa.ChangeInterface:
@@ -1268,6 +1302,10 @@ func (s *sxState) call(c ssa.CallInstruction, deferred bool) sxVal {
 			elems, okBase = append(elems, u.elems...), true
 		case sxConst:
 			okBase = u.c.Value == nil
+		default:
+			if lit, ok := sxSliceElems(base, s.mem); ok { // append to a slice literal
+				elems, okBase = append(elems, lit...), true
+			}
 		}
 		if add, ok := sxSliceElems(more, s.mem); ok && okBase {
 			return sxList{append(elems, add...)}
